@@ -418,9 +418,8 @@ theorem suff_mono (k : Kern) (b : Bound) (a : Arg) (depth : Option Nat)
       case halo l =>
         have hl0 : l ≠ 0 := by simp [Level.wf] at hwf; omega
         have hld : l < d := by
-          have := hval.2
-          simp [Level.isHalo, Level.litDepth] at this
-          omega
+          simp [rcValid, Level.isHalo, Level.litDepth] at hval
+          exact of_decide_eq_true hval.2.2
         cases disc <;> cases dof <;>
           simp_all [writeInfo, rcBound, cleanAfter, recAfter, Level.isHalo,
             Level.litDepth, lvlOf] <;> omega
@@ -428,5 +427,258 @@ theorem suff_mono (k : Kern) (b : Bound) (a : Arg) (depth : Option Nat)
         cases disc <;> cases dof <;>
           simp_all [writeInfo, rcBound, rcValid, cleanAfter, recAfter, Level.isHalo,
             Level.litDepth, lvlOf] <;> (try omega)
+
+/-! ## What the two halves of `update_halo_exchanges` do to the suffix -/
+
+theorem nodup_eraseDups : ∀ (l : List Nat), l.eraseDups.Nodup
+  | [] => by simp
+  | a :: as => by
+    rw [List.eraseDups_cons, List.nodup_cons]
+    refine ⟨?_, nodup_eraseDups _⟩
+    intro h
+    rw [List.mem_eraseDups] at h
+    simp at h
+  termination_by l => l.length
+  decreasing_by
+    simp only [List.length_cons]
+    exact Nat.lt_succ_of_le (List.length_filter_le _ _)
+
+theorem restAfterDrop_other {g : Nat} (hg : g ≠ f) (k : Kern) (b : Bound) (X : Sched) :
+    DropOther f X (restAfterDrop g k b X) := by
+  rw [restAfterDrop_eq]
+  cases argOf k g with
+  | none => exact dropNextHex_other f hg X
+  | some a =>
+    simp only
+    split
+    · exact dropOther_refl f X
+    · exact dropNextHex_other f hg X
+
+/-- the suffix returned by `createHex`, seen by field `f` -/
+theorem createHex_snd (k : Kern) (b : Bound) : ∀ (fs : List Nat) (pre rest : Sched), fs.Nodup →
+    (f ∉ newHexes cfg k b fs pre rest → DropOther f rest (createHex cfg k b fs pre rest).2) ∧
+    (f ∈ newHexes cfg k b fs pre rest → ∃ R1, DropOther f rest R1 ∧
+      DropOther f (restAfterDrop f k b R1) (createHex cfg k b fs pre rest).2)
+  | [], pre, rest, _ => by
+    simp [newHexes, createHex]
+    exact dropOther_refl f rest
+  | g :: fs, pre, rest, hnd => by
+    simp only [List.nodup_cons] at hnd
+    obtain ⟨hgfs, hnd'⟩ := hnd
+    have hskip : (f ∉ newHexes cfg k b fs pre rest →
+          DropOther f rest (createHex cfg k b fs pre rest).2) ∧
+        (f ∈ newHexes cfg k b fs pre rest → ∃ R1, DropOther f rest R1 ∧
+          DropOther f (restAfterDrop f k b R1) (createHex cfg k b fs pre rest).2) :=
+      createHex_snd k b fs pre rest hnd'
+    have hadd : (hexRequired cfg g pre (.loop k b :: rest)).1 = true →
+        (f ∉ g :: newHexes cfg k b fs (.hex .sync g :: pre) (restAfterDrop g k b rest) →
+          DropOther f rest
+            (createHex cfg k b fs (.hex .sync g :: pre) (restAfterDrop g k b rest)).2) ∧
+        (f ∈ g :: newHexes cfg k b fs (.hex .sync g :: pre) (restAfterDrop g k b rest) →
+          ∃ R1, DropOther f rest R1 ∧ DropOther f (restAfterDrop f k b R1)
+            (createHex cfg k b fs (.hex .sync g :: pre) (restAfterDrop g k b rest)).2) := by
+      intro _
+      obtain ⟨ih1, ih2⟩ := createHex_snd k b fs (.hex .sync g :: pre) (restAfterDrop g k b rest) hnd'
+      by_cases hg : g = f
+      · subst hg
+        have hnot : g ∉ newHexes cfg k b fs (.hex .sync g :: pre) (restAfterDrop g k b rest) :=
+          fun h => hgfs (newHexes_sub cfg k b fs _ _ g h)
+        constructor
+        · intro h; simp at h
+        · intro _
+          exact ⟨rest, dropOther_refl g rest, ih1 hnot⟩
+      · have hd := restAfterDrop_other f hg k b rest
+        constructor
+        · intro h
+          simp only [List.mem_cons, not_or] at h
+          exact dropOther_trans f hd (ih1 h.2)
+        · intro h
+          simp only [List.mem_cons] at h
+          rcases h with h | h
+          · exact absurd h.symm hg
+          · obtain ⟨R1, h1, h2⟩ := ih2 h
+            exact ⟨R1, dropOther_trans f hd h1, h2⟩
+    cases hb : bwdDep g pre with
+    | hex => simp only [createHex, newHexes, hb]; exact hskip
+    | none =>
+      by_cases hreq : (hexRequired cfg g pre (.loop k b :: rest)).1 = true
+      · simp only [createHex, newHexes, hb, hreq, if_true]
+        exact hadd hreq
+      · simp only [createHex, newHexes, hb, hreq, Bool.false_eq_true, if_false]
+        exact hskip
+    | writer kw bw aw =>
+      by_cases hreq : (hexRequired cfg g pre (.loop k b :: rest)).1 = true
+      · simp only [createHex, newHexes, hb, hreq, if_true]
+        exact hadd hreq
+      · simp only [createHex, newHexes, hb, hreq, Bool.false_eq_true, if_false]
+        exact hskip
+
+/-- the result of `removeStale`, seen by field `f` -/
+theorem removeStale_shape (p : Sched) : ∀ (ws : List Nat) (X : Sched), ws.Nodup →
+    (f ∉ ws → DropOther f X (removeStale cfg p ws X)) ∧
+    (f ∈ ws → ∃ X1, DropOther f X X1 ∧
+      DropOther f (removeStale.go cfg f p X1) (removeStale cfg p ws X))
+  | [], X, _ => by
+    simp [removeStale]
+    exact dropOther_refl f X
+  | g :: ws, X, hnd => by
+    simp only [List.nodup_cons] at hnd
+    obtain ⟨hgws, hnd'⟩ := hnd
+    obtain ⟨ih1, ih2⟩ := removeStale_shape p ws (removeStale.go cfg g p X) hnd'
+    simp only [removeStale]
+    by_cases hg : g = f
+    · subst hg
+      constructor
+      · intro h; simp at h
+      · intro _
+        exact ⟨X, dropOther_refl g X, ih1 hgws⟩
+    · have hd := go_other cfg f hg X p
+      constructor
+      · intro h
+        simp only [List.mem_cons, not_or] at h
+        exact dropOther_trans f hd (ih1 h.2)
+      · intro h
+        simp only [List.mem_cons] at h
+        rcases h with h | h
+        · exact absurd h.symm hg
+        · obtain ⟨X1, h1, h2⟩ := ih2 h
+          exact ⟨X1, dropOther_trans f hd h1, h2⟩
+
+/-! ## The prefix in front of the edited loop -/
+
+/-- `fwdReaders` over a prefix, with the readers of the rest as continuation -/
+def fwdC (f : Nat) : Sched → List Reader → List Reader
+  | [], c => c
+  | .hex kind g :: r, c => if g == f && kind != .start then [] else fwdC f r c
+  | .loop k b :: r, c =>
+    match argOf k f with
+    | none => fwdC f r c
+    | some a =>
+      if a.access.reads then (k, b, a) :: (if a.access.writes then [] else fwdC f r c) else []
+
+theorem fwdReaders_append (S : Sched) : ∀ P : Sched,
+    fwdReaders f (P ++ S) = fwdC f P (fwdReaders f S)
+  | [] => rfl
+  | .hex kind g :: P => by
+    simp only [List.cons_append, fwdReaders, fwdC, fwdReaders_append S P]
+  | .loop k b :: P => by
+    simp only [List.cons_append, fwdReaders, fwdC, fwdReaders_append S P]
+    cases argOf k f <;> rfl
+
+theorem headHra_fwdC (c c' : List Reader) (h : headHra cfg c → headHra cfg c') : ∀ P : Sched,
+    headHra cfg (fwdC f P c) → headHra cfg (fwdC f P c')
+  | [] => h
+  | .hex kind g :: P => by
+    simp only [fwdC]
+    split
+    · exact fun x => x
+    · exact headHra_fwdC c c' h P
+  | .loop k b :: P => by
+    simp only [fwdC]
+    cases argOf k f with
+    | none => exact headHra_fwdC c c' h P
+    | some a =>
+      simp only
+      split
+      · exact fun x => x
+      · exact fun x => x
+
+theorem validFrom_prefix (S S' : Sched)
+    (hc : headHra cfg (fwdReaders f S) → headHra cfg (fwdReaders f S')) :
+    ∀ (P pre : Sched),
+    (ValidFrom cfg H env cont f (P.reverse ++ pre) S →
+      ValidFrom cfg H env cont f (P.reverse ++ pre) S') →
+    ValidFrom cfg H env cont f pre (P ++ S) → ValidFrom cfg H env cont f pre (P ++ S')
+  | [], pre, h, hv => by simpa using h (by simpa using hv)
+  | .hex kind g :: P, pre, h, hv => by
+    simp only [List.cons_append, ValidFrom] at hv ⊢
+    refine ⟨?_, ?_⟩
+    · intro hg
+      obtain ⟨hk, hh⟩ := hv.1 hg
+      refine ⟨hk, ?_⟩
+      rw [fwdReaders_append] at hh ⊢
+      exact headHra_fwdC cfg f _ _ hc P hh
+    · apply validFrom_prefix S S' hc P _ _ hv.2
+      simpa using h
+  | .loop k b :: P, pre, h, hv => by
+    simp only [List.cons_append, ValidFrom] at hv ⊢
+    refine ⟨hv.1, ?_⟩
+    apply validFrom_prefix S S' hc P _ _ hv.2
+    simpa using h
+
+/-! ## Small facts used in the assembly -/
+
+theorem dropOther_sub {X Y : Sched} (h : DropOther f X Y) : ∀ x ∈ Y, x ∈ X := by
+  induction h with
+  | nil => intro x hx; exact hx
+  | keep y _ ih =>
+    intro x hx
+    simp only [List.mem_cons] at hx ⊢
+    rcases hx with hx | hx
+    · exact Or.inl hx
+    · exact Or.inr (ih x hx)
+  | drop kind _ _ ih =>
+    intro x hx
+    simp only [List.mem_cons]
+    exact Or.inr (ih x hx)
+
+theorem rel_trans {p1 p2 p3 : Sched} (h12 : Rel f p1 p2) (h23 : Rel f p2 p3) : Rel f p1 p3 := by
+  obtain ⟨a1, a2⟩ := h12
+  obtain ⟨b1, b2⟩ := h23
+  refine ⟨a1.trans b1, fun h => ?_⟩
+  rw [a2 h]
+  exact b2 (fun h2 => h (a1.mpr h2))
+
+theorem rel_hexes_other : ∀ (hs : List Nat) (pre : Sched), f ∉ hs →
+    Rel f pre ((hs.map hexSync).reverse ++ pre)
+  | [], pre, _ => by simpa using rel_refl f pre
+  | g :: hs, pre, h => by
+    simp only [List.mem_cons, not_or] at h
+    have hg : g ≠ f := fun e => h.1 e.symm
+    have h1 : Rel f pre (hexSync g :: pre) := by
+      have : (g == f) = false := by simpa using hg
+      simp [Rel, hexSync, bwdDep, bwdWriter, this]
+    have h2 := rel_hexes_other hs (hexSync g :: pre) h.2
+    have : (List.map hexSync (g :: hs)).reverse ++ pre =
+        (hs.map hexSync).reverse ++ (hexSync g :: pre) := by simp
+    rw [this]
+    exact rel_trans f h1 h2
+
+theorem bwdDep_hexes_mem : ∀ (hs : List Nat) (pre : Sched), f ∈ hs →
+    bwdDep f ((hs.map hexSync).reverse ++ pre) = .hex
+  | [], _, h => by simp at h
+  | g :: hs, pre, h => by
+    have : (List.map hexSync (g :: hs)).reverse ++ pre =
+        (hs.map hexSync).reverse ++ (hexSync g :: pre) := by simp
+    rw [this]
+    by_cases hg : g = f
+    · apply bwdDep_hexes_keep
+      subst hg
+      simp [hexSync, bwdDep]
+    · simp only [List.mem_cons] at h
+      rcases h with h | h
+      · exact absurd h.symm hg
+      · exact bwdDep_hexes_mem hs _ h
+
+theorem rel_loop_nonwriter (k : Kern) (b b' : Bound) (p1 p2 : Sched)
+    (h : ∀ a, argOf k f = some a → a.access.writes = false) (hr : Rel f p1 p2) :
+    Rel f (.loop k b :: p1) (.loop k b' :: p2) := by
+  cases ha : argOf k f with
+  | none => simpa [Rel, bwdDep, bwdWriter, ha] using hr
+  | some a =>
+    have := h a ha
+    simpa [Rel, bwdDep, bwdWriter, ha, this] using hr
+
+theorem hra_rcBound (k : Kern) (b : Bound) (a : Arg) (depth : Option Nat)
+    (hr : a.access.reads = true) : haloReadAccess cfg k (rcBound b depth) a = true := by
+  unfold haloReadAccess
+  simp only [hr, Bool.not_true, Bool.false_eq_true, if_false, rcBound_isHalo]
+  split <;> rfl
+
+theorem mem_written {k : Kern} :
+    f ∈ ((k.args.filter (fun a => a.access.writes)).map (·.field)).eraseDups ↔
+      ∃ a ∈ k.args, a.access.writes = true ∧ a.field = f := by
+  rw [List.mem_eraseDups]
+  simp [and_assoc]
 
 end C22
